@@ -212,6 +212,7 @@ type Conc struct {
 	Goroutines int            `json:"goroutines"`
 	Procs      int            `json:"procs"`
 	Rounds     int            `json:"rounds"`
+	Preamble   int            `json:"preamble"` // call made before the concurrent phase: 0 none, 1 monitored call that returns, 2 monitored call on the empty graph (panics), 3 monitored call on a malformed edge (panics)
 	Inputs     []ConcInput    `json:"inputs"`
 	Extra      map[string]any `json:"extra,omitempty"`
 }
